@@ -26,7 +26,11 @@ DECLARED = core.ALL_ALGS + [0, -1, -6, -9, -35, -40, -256, -260, 7, 257]
 # signing schemes that no registered algorithm identifier denotes: PSS whose mask function uses another hash than the message,
 # PKCS#1 v1.5 / ECDSA over hashes outside the table. Whatever the key declares, these must not verify.
 EXOTIC = [("pss", "sha256", "sha1"), ("pss", "sha384", "sha1"), ("pss", "sha512", "sha256"), ("pss", "sha256", "sha512"),
-          ("pkcs1", "sha224", None), ("pkcs1", "sha3_256", None), ("ecdsa", "sha384", None), ("ecdsa", "sha1", None),
+          ("pkcs1", "sha224", None), ("pkcs1", "sha3_256", None),
+          # EMSA-PKCS1-v1_5 blocks that are not what the scheme prescribes: the bare digest without its DigestInfo, and the
+          # digest wrapped in the DigestInfo of another hash (RIPEMD-160's OID)
+          ("pkcs1-bare", "sha1", None), ("pkcs1-bare", "sha256", None), ("pkcs1-bare", "sha512", None),
+          ("pkcs1-other-oid", "sha1", None), ("pkcs1-other-oid", "sha256", None), ("ecdsa", "sha384", None), ("ecdsa", "sha1", None),
           ("ecdsa", "sha224", None)]
 
 
@@ -37,6 +41,17 @@ def sign_exotic(priv, scheme, data):
          "sha3_256": hashes.SHA3_256}
     kind, h, mgf = scheme
     k = core.key_kind(priv)
+    if kind in ("pkcs1-bare", "pkcs1-other-oid") and k == "rsa":
+        import hashlib
+        digest = hashlib.new(h, data).digest()
+        t = digest if kind == "pkcs1-bare" else bytes.fromhex("3021300906052b2403020105000414")[:-1] + bytes([len(digest)]) + digest
+        nums = priv.private_numbers()
+        n = nums.public_numbers.n
+        klen = (n.bit_length() + 7) // 8
+        if klen < len(t) + 11:
+            return None
+        em = b"\x00\x01" + b"\xff" * (klen - len(t) - 3) + b"\x00" + t
+        return pow(int.from_bytes(em, "big"), nums.d, n).to_bytes(klen, "big")
     try:
         if kind == "pss" and k == "rsa":
             return priv.sign(data, padding.PSS(mgf=padding.MGF1(H[mgf]()), salt_length=H[h]().digest_size), H[h]())
